@@ -56,173 +56,234 @@ func storeCallKind(c *ssa.CallCommon) string {
 }
 
 func checkAuthnGate(r *Report, p *Prog) {
-	fn := p.MustFunc("samlidp", "Server", "GetSession")
+	top := p.MustFunc("samlidp", "Server", "GetSession")
 	a := NewAnalysis(p)
 	B := a.B
-	fc := a.Ctx(fn)
-	fc.ensureConds()
-	r.Fn(p.FnName(fn))
-	// calls of interest
-	var cmp *ssa.Call
-	gets := map[string]*ssa.Call{} // "users" / "sessions" -> Store.Get call
-	for _, b := range fn.Blocks {
-		for _, in := range b.Instrs {
-			c, ok := in.(*ssa.Call)
-			if !ok {
+	// GetSession with the helpers it is split into (one per way of obtaining a session, a constructor for the new
+	// session): every function of the region that returns a session is judged at its own returns, under the conditions
+	// of the path that leads to it
+	rg := NewRegion(p, top, 2)
+	returnsSession := func(f *ssa.Function) bool {
+		res := f.Signature.Results()
+		return res.Len() >= 1 && typeIs(res.At(0).Type(), modPath, "Session")
+	}
+	for _, act := range rg.all {
+		fn := act.fn
+		if !returnsSession(fn) {
+			continue
+		}
+		fc := rg.Ctx(a, act)
+		fc.ensureConds()
+		r.Fn(p.FnName(fn))
+		implied := func(blk *ssa.BasicBlock, f *bddNode) bool { return B.Implies(fc.AbsCond(blk), f) }
+		// calls of interest: in this function or in the functions on the way to it
+		var cmp *ssa.Call
+		var cmpFC *FuncCtx
+		gets := map[string]*ssa.Call{} // "users" / "sessions" -> Store.Get call
+		getFC := map[string]*FuncCtx{}
+		for c := act; c != nil; c = c.parent {
+			cfc := rg.Ctx(a, c)
+			for _, b := range c.fn.Blocks {
+				for _, in := range b.Instrs {
+					call, ok := in.(*ssa.Call)
+					if !ok {
+						continue
+					}
+					if calleeIs(call, "golang.org/x/crypto/bcrypt.CompareHashAndPassword") && cmp == nil {
+						cmp, cmpFC = call, cfc
+					}
+					if storeCallKind(&call.Call) == "Get" {
+						f, _ := storeKeyOf(cfc, call.Call.Args[0], 0)
+						for _, o := range rg.Origins(RV{V: call.Call.Args[0], C: c}) {
+							f, _ = storeKeyOf(rg.Ctx(a, o.C), o.V, 0)
+						}
+						switch {
+						case strings.Contains(f, `/users/`):
+							if gets["users"] == nil {
+								gets["users"], getFC["users"] = call, cfc
+							}
+						case strings.Contains(f, `/sessions/`):
+							if gets["sessions"] == nil {
+								gets["sessions"], getFC["sessions"] = call, cfc
+							}
+						}
+					}
+				}
+			}
+		}
+		keyArgAP := func(call *ssa.Call, cfc *FuncCtx) string {
+			_, arg := storeKeyOf(cfc, call.Call.Args[0], 0)
+			return arg
+		}
+		for _, ret := range fc.Returns() {
+			v := Resolve(ret.Results[0])
+			if isNilConst(v) {
 				continue
 			}
-			if calleeIs(c, "golang.org/x/crypto/bcrypt.CompareHashAndPassword") {
-				cmp = c
-			}
-			if storeCallKind(&c.Call) == "Get" {
-				key := fc.AP(c.Call.Args[0])
-				switch {
-				case strings.Contains(key, `/users/`):
-					gets["users"] = c
-				case strings.Contains(key, `/sessions/`):
-					gets["sessions"] = c
+			// forwarded from a helper of the region that returns a session: judged there
+			fwd := false
+			switch x := v.(type) {
+			case *ssa.Call:
+				if k := act.kids[x]; k != nil && returnsSession(k.fn) {
+					fwd = true
+				}
+			case *ssa.Extract:
+				if call, ok := x.Tuple.(*ssa.Call); ok {
+					if k := act.kids[call]; k != nil && returnsSession(k.fn) {
+						fwd = true
+					}
 				}
 			}
-		}
-	}
-	for _, ret := range fc.Returns() {
-		v := Resolve(ret.Results[0])
-		if isNilConst(v) {
-			continue
-		}
-		blk := ret.Block()
-		if ld, ok := v.(*ssa.UnOp); ok {
-			// `session := &saml.Session{...}` whose address is also taken: a pointer variable holding the literal
-			if pv, ok := ld.X.(*ssa.Alloc); ok {
-				if iv := initStore(pv); iv != nil {
-					v = iv
+			if fwd {
+				continue
+			}
+			blk := ret.Block()
+			cons := fmt.Sprintf("%s: session returned at %s", p.FnName(fn), p.InstrPos(ret))
+			var al *ssa.Alloc
+			var alC *rctx
+			nOrig := 0
+			var work []RV
+			work = append(work, rg.Origins(RV{V: v, C: act})...)
+			for i := 0; i < len(work) && i < 16; i++ {
+				o := work[i]
+				if ld, ok := o.V.(*ssa.UnOp); ok {
+					// `session := &saml.Session{...}` whose address is also taken: a pointer variable assigned once
+					if pv, ok := ld.X.(*ssa.Alloc); ok {
+						if iv := initStore(pv); iv != nil {
+							work = append(work, rg.Origins(RV{V: iv, C: o.C})...)
+							continue
+						}
+					}
+				}
+				nOrig++
+				if x, ok := o.V.(*ssa.Alloc); ok {
+					al, alC = x, o.C
 				}
 			}
-		}
-		al, _ := v.(*ssa.Alloc)
-		cons := fmt.Sprintf("%s: session returned at %s", p.FnName(fn), p.InstrPos(ret))
-		if al == nil {
-			r.Bad("C19.authn-gate", cons, p.InstrPos(ret), "a session value of unknown origin is returned")
-			continue
-		}
-		// is this object the target of the sessions Get?
-		isStored := false
-		if g := gets["sessions"]; g != nil {
-			if tgt := ifaceTarget(g.Call.Args[1]); tgt == ssa.Value(al) {
-				isStored = true
+			if al == nil || nOrig != 1 {
+				r.Bad("C19.authn-gate", cons, p.InstrPos(ret), "a session value of unknown origin is returned")
+				continue
 			}
-		}
-		if isStored {
-			g := gets["sessions"]
-			gname := "isnil(" + fc.AP(g) + ")"
-			key := fc.AP(g.Call.Args[0])
-			okKey := strings.Contains(key, `Cookie(c:"session")`) && strings.Contains(key, ".Value")
-			var expAtom string
-			for _, name := range B.Support(fc.Cond(blk)) {
-				ai := a.Atoms[name]
-				if ai != nil && ai.Kind == "before" && ai.TT[0] != nil && strings.HasSuffix(ai.TT[0].Base, ".ExpireTime") {
-					expAtom = name
+			// is this object the target of the sessions Get?
+			isStored := false
+			if g := gets["sessions"]; g != nil {
+				if tgt := ifaceTarget(g.Call.Args[1]); tgt == ssa.Value(al) {
+					isStored = true
 				}
 			}
-			okExp := false
-			why := []string{}
-			if expAtom != "" && fc.Implied(blk, B.Not(B.Var(expAtom))) {
-				tt := a.Atoms[expAtom].TT
-				src := valueSources(p, fn, tt[1].BaseV, 0, map[string]bool{})
-				if len(src) == 1 && src[0] == "call through saml.TimeNow" && len(tt[0].Coef) == 0 && len(tt[1].Coef) == 0 && tt[0].Const == 0 && tt[1].Const == 0 {
-					okExp = true
+			if isStored {
+				g := gets["sessions"]
+				gname := "isnil(" + getFC["sessions"].AP(g) + ")"
+				key := keyArgAP(g, getFC["sessions"])
+				okKey := strings.Contains(key, `Cookie(c:"session")`) && strings.Contains(key, ".Value")
+				var expAtom string
+				for _, name := range B.Support(fc.AbsCond(blk)) {
+					ai := a.Atoms[name]
+					if ai != nil && ai.Kind == "before" && ai.TT[0] != nil && strings.HasSuffix(ai.TT[0].Base, ".ExpireTime") {
+						expAtom = name
+					}
+				}
+				okExp := false
+				why := []string{}
+				if expAtom != "" && implied(blk, B.Not(B.Var(expAtom))) {
+					tt := a.Atoms[expAtom].TT
+					src := valueSources(p, fn, tt[1].BaseV, 0, map[string]bool{})
+					if len(src) == 1 && src[0] == "call through saml.TimeNow" && len(tt[0].Coef) == 0 && len(tt[1].Coef) == 0 && tt[0].Const == 0 && tt[1].Const == 0 {
+						okExp = true
+					} else {
+						why = append(why, "the expiry comparison is not ExpireTime against TimeNow() exactly")
+					}
 				} else {
-					why = append(why, "the expiry comparison is not ExpireTime against TimeNow() exactly")
+					why = append(why, "the stored session is returned without (or regardless of) the expiry check")
 				}
+				okGet := B.HasVar(gname) && implied(blk, B.Var(gname))
+				if !okGet {
+					why = append(why, "the session is returned although the store lookup failed")
+				}
+				if !okKey {
+					why = append(why, "the store key is not built from the session cookie's value: "+key)
+				}
+				r.Check(okExp && okGet && okKey, "C19.authn-gate", cons+" (stored session)", p.InstrPos(ret), "store lookup by cookie value succeeded and session not expired", strings.Join(why, "; "))
+				continue
+			}
+			// freshly created session: must be behind the credential check
+			why := []string{}
+			ok := true
+			if cmp == nil {
+				ok = false
+				why = append(why, "no password comparison on the way to this return")
 			} else {
-				why = append(why, "the stored session is returned without (or regardless of) the expiry check")
-			}
-			okGet := B.HasVar(gname) && fc.Implied(blk, B.Var(gname))
-			if !okGet {
-				why = append(why, "the session is returned although the store lookup failed")
-			}
-			if !okKey {
-				why = append(why, "the store key is not built from the session cookie's value: "+key)
-			}
-			r.Check(okExp && okGet && okKey, "C19.authn-gate", cons+" (stored session)", p.InstrPos(ret), "store lookup by cookie value succeeded and session not expired", strings.Join(why, "; "))
-			continue
-		}
-		// freshly created session: must be behind the credential check
-		why := []string{}
-		ok := true
-		if cmp == nil {
-			ok = false
-			why = append(why, "no password comparison in the function")
-		} else {
-			cname := "isnil(" + fc.AP(cmp) + ")"
-			if !B.HasVar(cname) || !fc.Implied(blk, B.Var(cname)) {
-				ok = false
-				why = append(why, "a new session is returned on a path where the password comparison did not succeed: "+firstCube(B, B.And(fc.Cond(blk), B.Not(B.Var(cname)))))
-			}
-			hashAP := fc.AP(cmp.Call.Args[0])
-			pwAP := fc.AP(cmp.Call.Args[1])
-			if !strings.HasSuffix(hashAP, "User.HashedPassword") {
-				ok = false
-				why = append(why, "compared against "+hashAP+" instead of the stored hash")
-			}
-			if !strings.Contains(pwAP, `PostForm.Get(c:"password")`) {
-				ok = false
-				why = append(why, "compared with "+pwAP+" instead of the posted password")
-			}
-			g := gets["users"]
-			if g == nil {
-				ok = false
-				why = append(why, "the user record is not fetched from the store")
-			} else {
-				gname := "isnil(" + fc.AP(g) + ")"
-				if !B.HasVar(gname) || !fc.Implied(blk, B.Var(gname)) {
+				cname := "isnil(" + cmpFC.AP(cmp) + ")"
+				if !B.HasVar(cname) || !implied(blk, B.Var(cname)) {
 					ok = false
-					why = append(why, "the session is created although fetching the user failed")
+					why = append(why, "a new session is returned on a path where the password comparison did not succeed: "+firstCube(B, B.And(fc.AbsCond(blk), B.Not(B.Var(cname)))))
 				}
-				key := fc.AP(g.Call.Args[0])
-				if !strings.Contains(key, `PostForm.Get(c:"user")`) {
+				hashAP := cmpFC.AP(cmp.Call.Args[0])
+				pwAP := cmpFC.AP(cmp.Call.Args[1])
+				if !strings.HasSuffix(hashAP, "User.HashedPassword") {
 					ok = false
-					why = append(why, "user fetched under key "+key)
+					why = append(why, "compared against "+hashAP+" instead of the stored hash")
 				}
-				// the hash compared belongs to the fetched record
-				if tgt := ifaceTarget(g.Call.Args[1]); tgt == nil || !strings.HasPrefix(hashAP, fc.AP(tgt)) {
+				if !strings.Contains(pwAP, `PostForm.Get(c:"password")`) {
 					ok = false
-					why = append(why, "the hash compared does not belong to the fetched user record")
+					why = append(why, "compared with "+pwAP+" instead of the posted password")
+				}
+				g := gets["users"]
+				if g == nil {
+					ok = false
+					why = append(why, "the user record is not fetched from the store")
+				} else {
+					gname := "isnil(" + getFC["users"].AP(g) + ")"
+					if !B.HasVar(gname) || !implied(blk, B.Var(gname)) {
+						ok = false
+						why = append(why, "the session is created although fetching the user failed")
+					}
+					key := keyArgAP(g, getFC["users"])
+					if !strings.Contains(key, `PostForm.Get(c:"user")`) {
+						ok = false
+						why = append(why, "user fetched under key "+key)
+					}
+					// the hash compared belongs to the fetched record
+					if tgt := ifaceTarget(g.Call.Args[1]); tgt == nil || !strings.HasPrefix(hashAP, getFC["users"].AP(tgt)) {
+						ok = false
+						why = append(why, "the hash compared does not belong to the fetched user record")
+					}
+				}
+				// no bypass: the only atoms on the path besides the three above must not mention the hash or its length
+				for _, name := range B.Support(fc.AbsCond(blk)) {
+					if strings.Contains(name, "HashedPassword") {
+						ok = false
+						why = append(why, "the decision also depends on "+name+" (a bypass on the stored hash)")
+					}
 				}
 			}
-			// no bypass: the only atoms on the path besides the three above must not mention the hash or its length
-			for _, name := range B.Support(fc.Cond(blk)) {
-				if strings.Contains(name, "HashedPassword") {
-					ok = false
-					why = append(why, "the decision also depends on "+name+" (a bypass on the stored hash)")
+			r.Check(ok, "C19.authn-gate", cons+" (new session)", p.InstrPos(ret), "behind store lookup of the posted user and bcrypt comparison with the posted password", strings.Join(why, "; "))
+			// session fields (the literal may sit in a constructor helper handed the user record)
+			lfc := rg.Ctx(a, alC)
+			for field, sts := range litFields(al.Parent(), modPath, "Session") {
+				for _, st := range sts {
+					if rootOfAddr(st.Addr) != ssa.Value(al) {
+						continue
+					}
+					ap := lfc.AP(st.Val)
+					c2 := fmt.Sprintf("%s: new session field %s", p.FnName(al.Parent()), field)
+					okF := strings.HasPrefix(ap, "User.") || strings.Contains(ap, "/User.") || strings.Contains(ap, "randomBytes") || strings.Contains(ap, "TimeNow") || strings.HasPrefix(ap, "c:")
+					if field == "ID" || field == "Index" {
+						okF = strings.Contains(ap, "randomBytes")
+					}
+					r.Check(okF, "C19.session-source", c2, p.InstrPos(st), ap, "session field "+field+" is taken from "+ap+" (expected the stored user record / fresh randomness / the clock)")
 				}
 			}
-		}
-		r.Check(ok, "C19.authn-gate", cons+" (new session)", p.InstrPos(ret), "behind store lookup of the posted user and bcrypt comparison with the posted password", strings.Join(why, "; "))
-		// session fields
-		for field, sts := range litFields(fn, modPath, "Session") {
-			for _, st := range sts {
-				if rootOfAddr(st.Addr) != ssa.Value(al) {
-					continue
+			// and what is stored under /sessions/<id> is this session, error checked
+			for _, b := range fn.Blocks {
+				for _, in := range b.Instrs {
+					c, okc := in.(*ssa.Call)
+					if !okc || storeCallKind(&c.Call) != "Put" {
+						continue
+					}
+					pname := "isnil(" + fc.AP(c) + ")"
+					r.Check(B.HasVar(pname) && implied(blk, B.Var(pname)), "C19.authn-gate", p.FnName(fn)+": new session returned only after it was stored", p.InstrPos(c), "Put == nil", "a session that failed to be stored is still returned")
 				}
-				ap := fc.AP(st.Val)
-				c2 := fmt.Sprintf("%s: new session field %s", p.FnName(fn), field)
-				okF := strings.HasPrefix(ap, "User.") || strings.Contains(ap, "randomBytes") || strings.Contains(ap, "TimeNow") || strings.HasPrefix(ap, "c:")
-				if field == "ID" || field == "Index" {
-					okF = strings.Contains(ap, "randomBytes")
-				}
-				r.Check(okF, "C19.session-source", c2, p.InstrPos(st), ap, "session field "+field+" is taken from "+ap+" (expected the stored user record / fresh randomness / the clock)")
-			}
-		}
-		// and what is stored under /sessions/<id> is this session, error checked
-		for _, b := range fn.Blocks {
-			for _, in := range b.Instrs {
-				c, okc := in.(*ssa.Call)
-				if !okc || storeCallKind(&c.Call) != "Put" {
-					continue
-				}
-				pname := "isnil(" + fc.AP(c) + ")"
-				r.Check(B.HasVar(pname) && fc.Implied(blk, B.Var(pname)), "C19.authn-gate", p.FnName(fn)+": new session returned only after it was stored", p.InstrPos(c), "Put == nil", "a session that failed to be stored is still returned")
 			}
 		}
 	}
@@ -257,68 +318,74 @@ func checkSSOGate(r *Report, p *Prog) {
 			continue
 		}
 		sname := "isnil(" + fc.AP(sess) + ")"
-		for _, b := range fn.Blocks {
-			for _, in := range b.Instrs {
-				c, ok := in.(*ssa.Call)
-				if !ok {
-					continue
-				}
-				isMake := c.Call.IsInvoke() && c.Call.Method.Name() == "MakeAssertion"
-				isWrite := c.Call.StaticCallee() != nil && c.Call.StaticCallee().Name() == "WriteResponse"
-				if !isMake && !isWrite {
-					continue
-				}
-				what := "WriteResponse"
-				if isMake {
-					what = "MakeAssertion"
-				}
-				cons := fmt.Sprintf("%s: %s only for an authenticated session", p.FnName(fn), what)
-				ok2 := B.HasVar(sname) && fc.Implied(b, B.Not(B.Var(sname)))
-				why := "reachable without a non-nil session from the session provider"
-				if isMake && ok2 {
-					if c.Call.Args[len(c.Call.Args)-1] != ssa.Value(sess) {
-						ok2 = false
-						why = "the assertion is made for a session other than the one the provider returned"
-					}
-				}
-				// further gates
-				var extra []string
-				needNil := func(sub, desc string) {
-					found := false
-					for _, nm := range B.Support(fc.Cond(b)) {
-						if strings.HasPrefix(nm, "isnil(") && strings.Contains(nm, sub) && fc.Implied(b, B.Var(nm)) {
-							found = true
-						}
-					}
-					if !found {
-						extra = append(extra, desc)
-					}
-				}
-				if name == "ServeSSO" {
-					needNil("NewIdpAuthnRequest#", "request parsed without error")
-					needNil("IdpAuthnRequest).Validate#", "request validated")
-				} else {
-					needNil("GetServiceProvider#", "registered provider found")
-					acs := false
-					for _, nm := range B.Support(fc.Cond(b)) {
-						if strings.HasPrefix(nm, "isnil(") && strings.HasSuffix(nm, ".ACSEndpoint)") && fc.Implied(b, B.Not(B.Var(nm))) {
-							acs = true
-						}
-					}
-					if !acs {
-						extra = append(extra, "a POST endpoint was selected")
-					}
-				}
-				if isWrite {
-					needNil("MakeAssertion#", "assertion made without error")
-				}
-				if len(extra) > 0 {
-					ok2 = false
-					why = "missing gates: " + strings.Join(extra, ", ")
-				}
-				r.Check(ok2, "C19.sso-gate", cons, p.InstrPos(in), "session != nil and preceding gates passed", why)
+		// the handler with the helpers it is split into (a shared "make the assertion and write the response" tail)
+		rg := NewRegion(p, fn, 2)
+		sessRI := RI{sess, rg.top}
+		rg.Each(func(x RI) {
+			in := x.I
+			c, ok := in.(*ssa.Call)
+			if !ok {
+				return
 			}
-		}
+			isMake := c.Call.IsInvoke() && c.Call.Method.Name() == "MakeAssertion"
+			isWrite := c.Call.StaticCallee() != nil && c.Call.StaticCallee().Name() == "WriteResponse"
+			if !isMake && !isWrite {
+				return
+			}
+			xfc := rg.Ctx(a, x.C)
+			xfc.ensureConds()
+			cnd := xfc.AbsCond(in.Block())
+			r.Fn(p.FnName(in.Parent()))
+			what := "WriteResponse"
+			if isMake {
+				what = "MakeAssertion"
+			}
+			cons := fmt.Sprintf("%s: %s only for an authenticated session", p.FnName(fn), what)
+			ok2 := B.HasVar(sname) && B.Implies(cnd, B.Not(B.Var(sname)))
+			why := "reachable without a non-nil session from the session provider"
+			if isMake && ok2 {
+				if !rg.IsFrom(RV{V: c.Call.Args[len(c.Call.Args)-1], C: x.C}, sessRI) {
+					ok2 = false
+					why = "the assertion is made for a session other than the one the provider returned"
+				}
+			}
+			// further gates
+			var extra []string
+			needNil := func(sub, desc string) {
+				found := false
+				for _, nm := range B.Support(cnd) {
+					if strings.HasPrefix(nm, "isnil(") && strings.Contains(nm, sub) && B.Implies(cnd, B.Var(nm)) {
+						found = true
+					}
+				}
+				if !found {
+					extra = append(extra, desc)
+				}
+			}
+			if name == "ServeSSO" {
+				needNil("NewIdpAuthnRequest#", "request parsed without error")
+				needNil("IdpAuthnRequest).Validate#", "request validated")
+			} else {
+				needNil("GetServiceProvider#", "registered provider found")
+				acs := false
+				for _, nm := range B.Support(cnd) {
+					if strings.HasPrefix(nm, "isnil(") && strings.HasSuffix(nm, ".ACSEndpoint)") && B.Implies(cnd, B.Not(B.Var(nm))) {
+						acs = true
+					}
+				}
+				if !acs {
+					extra = append(extra, "a POST endpoint was selected")
+				}
+			}
+			if isWrite {
+				needNil("MakeAssertion#", "assertion made without error")
+			}
+			if len(extra) > 0 {
+				ok2 = false
+				why = "missing gates: " + strings.Join(extra, ", ")
+			}
+			r.Check(ok2, "C19.sso-gate", cons, p.InstrPos(in), "session != nil and preceding gates passed", why)
+		})
 	}
 	// shortcut launch
 	fn := p.MustFunc("samlidp", "Server", "HandleIDPInitiated")
@@ -490,6 +557,7 @@ func (ra *replyAnalysis) summary(fn *ssa.Function) *replySummary {
 		}
 	}
 	one, zero := replyRange{1, 1}, replyRange{0, 0}
+	splitNil, splitNon := map[*ssa.Return]replyRange{}, map[*ssa.Return]replyRange{}
 	in[fn.Blocks[0]] = &st{pending: map[ssa.Value]condCount{}}
 	for _, b := range fc.rpo {
 		s := in[b]
@@ -560,7 +628,28 @@ func (ra *replyAnalysis) summary(fn *ssa.Function) *replySummary {
 		if len(b.Instrs) > 0 {
 			if ret, ok := b.Instrs[len(b.Instrs)-1].(*ssa.Return); ok && b != fn.Recover {
 				rr := cur.r
-				for _, pc := range cur.pending {
+				// a pointer result forwarded from a callee whose reply count depends on whether it returned nil: this exit
+				// stands for two kinds of exit
+				var fwd ssa.Value
+				if len(ret.Results) >= 1 {
+					if rv := Resolve(ret.Results[0]); rv != nil {
+						if _, ok := cur.pending[rv]; ok {
+							if _, isPtr := rv.Type().Underlying().(*types.Pointer); isPtr {
+								fwd = rv
+							}
+						}
+					}
+				}
+				for k, pc := range cur.pending {
+					if k == fwd {
+						continue
+					}
+					rr = rr.add(joinRange(pc.ifNil, pc.ifNonNil))
+				}
+				if fwd != nil {
+					pc := cur.pending[fwd]
+					splitNil[ret] = rr.add(pc.ifNil)
+					splitNon[ret] = rr.add(pc.ifNonNil)
 					rr = rr.add(joinRange(pc.ifNil, pc.ifNonNil))
 				}
 				sum.perExit[ret] = rr
@@ -606,7 +695,10 @@ func (ra *replyAnalysis) summary(fn *ssa.Function) *replySummary {
 		}
 		if len(ret.Results) >= 1 {
 			if _, isPtr := ret.Results[0].Type().Underlying().(*types.Pointer); isPtr {
-				if isNilConst(Resolve(ret.Results[0])) {
+				if sn, ok := splitNil[ret]; ok {
+					joinPtr(&sum.nilRes, sn)
+					joinPtr(&sum.nonNil, splitNon[ret])
+				} else if isNilConst(Resolve(ret.Results[0])) {
 					joinPtr(&sum.nilRes, rr)
 				} else {
 					joinPtr(&sum.nonNil, rr)
@@ -878,6 +970,10 @@ func checkKeyAgreement(r *Report, p *Prog) {
 		}
 	}
 	trimRoot := func(ap string) string {
+		// a root that is local to a helper activation carries the activation's prefix ("Fn/helper@site/")
+		if i := strings.LastIndex(ap, "/"); i >= 0 && !strings.Contains(ap, `"`) {
+			ap = ap[i+1:]
+		}
 		if i := strings.Index(ap, "."); i >= 0 {
 			return ap[i:]
 		}
@@ -887,61 +983,98 @@ func checkKeyAgreement(r *Report, p *Prog) {
 	var reg []site
 	prefixes := map[string]bool{}
 	type skey struct{ format, arg string }
-	for _, fn := range fns {
-		a := NewAnalysis(p)
-		fc := a.Ctx(fn)
-		perFn := map[string]map[skey]string{} // collection prefix -> key expr -> position
-		perFnInstr := map[string]map[skey][]ssa.Instruction{}
-		for _, b := range fn.Blocks {
-			for _, in := range b.Instrs {
-				switch x := in.(type) {
-				case *ssa.MapUpdate:
-					if strings.HasSuffix(addrPath(x.Map), "Server.serviceProviders") || strings.HasSuffix(fc.AP(x.Map), "Server.serviceProviders") {
-						reg = append(reg, site{"update", trimRoot(fc.AP(x.Key)), p.InstrPos(in), p.FnName(fn)})
-					}
-				case *ssa.Call:
-					if bi, ok := x.Call.Value.(*ssa.Builtin); ok && bi.Name() == "delete" && len(x.Call.Args) == 2 {
-						if strings.HasSuffix(fc.AP(x.Call.Args[0]), "Server.serviceProviders") {
-							reg = append(reg, site{"delete", trimRoot(fc.AP(x.Call.Args[1])), p.InstrPos(in), p.FnName(fn)})
-						}
-						continue
-					}
-					kind := storeCallKind(&x.Call)
-					if kind == "" || len(x.Call.Args) == 0 {
-						continue
-					}
-					keyArg := x.Call.Args[0] // interface call: the receiver is not among the arguments
-					if kind == "List" {
-						if pf, ok := constStr(keyArg); ok {
-							prefixes[pf] = true
-						}
-						continue
-					}
-					var k skey
-					if c, ok := keyArg.(*ssa.Call); ok && calleeIs(c, "fmt.Sprintf") {
-						k.format, _ = constStr(c.Call.Args[0])
-						if vs := varargValues(c); len(vs) == 1 {
-							k.arg = fc.AP(vs[0])
-						} else {
-							k.arg = "?"
-						}
-					} else {
-						k.format, k.arg = "?", fc.AP(keyArg)
-					}
-					coll := strings.TrimSuffix(k.format, "%s")
-					if perFn[coll] == nil {
-						perFn[coll] = map[skey]string{}
-					}
-					perFn[coll][k] = p.InstrPos(in)
-					if perFnInstr[coll] == nil {
-						perFnInstr[coll] = map[skey][]ssa.Instruction{}
-					}
-					perFnInstr[coll][k] = append(perFnInstr[coll][k], in)
-					okF := strings.HasSuffix(k.format, "/%s") && strings.Count(k.format, "%") == 1
-					r.Check(okF, rule, fmt.Sprintf("%s: %s key %q", p.FnName(fn), kind, k.format), p.InstrPos(in), "collection prefix + one %s", "the store key is not a collection prefix followed by exactly one %s")
-				}
+	hasCallers := func(fn *ssa.Function) bool {
+		if fn.Object() != nil && fn.Object().Exported() {
+			return false
+		}
+		for _, cs := range p.CallersOf(fn) {
+			if inPkg(cs.Caller, idpPkg) {
+				return true
 			}
 		}
+		return false
+	}
+	paramRooted := func(fn *ssa.Function, v ssa.Value) bool {
+		root := rootOfAddr(v)
+		if ld, ok := root.(*ssa.UnOp); ok {
+			root = rootOfAddr(ld.X)
+		}
+		prm, ok := root.(*ssa.Parameter)
+		return ok && prm.Parent() == fn
+	}
+	seenReg := map[string]bool{}
+	for _, fn := range fns {
+		a := NewAnalysis(p)
+		// the handler with the helpers it is split into; a helper that is handed its key is judged through its callers
+		rg := NewRegion(p, fn, 2)
+		helper := hasCallers(fn)
+		perFn := map[string]map[skey]string{} // collection prefix -> key expr -> position
+		perFnInstr := map[string]map[skey][]RI{}
+		rg.Each(func(xi RI) {
+			in := xi.I
+			fc := rg.Ctx(a, xi.C)
+			fc.ensureConds()
+			if fc.AbsCond(in.Block()) == a.B.False {
+				return // not executed in this activation (e.g. the "replaces another record" branch of a helper called with nil)
+			}
+			switch x := in.(type) {
+			case *ssa.MapUpdate:
+				if strings.HasSuffix(addrPath(x.Map), "Server.serviceProviders") || strings.HasSuffix(fc.AP(x.Map), "Server.serviceProviders") {
+					if xi.C == rg.top && helper && paramRooted(fn, x.Key) {
+						return
+					}
+					id := "update|" + p.InstrPos(in) + "|" + trimRoot(fc.AP(x.Key))
+					if !seenReg[id] {
+						seenReg[id] = true
+						reg = append(reg, site{"update", trimRoot(fc.AP(x.Key)), p.InstrPos(in), p.FnName(in.Parent())})
+					}
+				}
+			case *ssa.Call:
+				if bi, ok := x.Call.Value.(*ssa.Builtin); ok && bi.Name() == "delete" && len(x.Call.Args) == 2 {
+					if strings.HasSuffix(fc.AP(x.Call.Args[0]), "Server.serviceProviders") {
+						if xi.C == rg.top && helper && paramRooted(fn, x.Call.Args[1]) {
+							return
+						}
+						id := "delete|" + p.InstrPos(in) + "|" + trimRoot(fc.AP(x.Call.Args[1]))
+						if !seenReg[id] {
+							seenReg[id] = true
+							reg = append(reg, site{"delete", trimRoot(fc.AP(x.Call.Args[1])), p.InstrPos(in), p.FnName(in.Parent())})
+						}
+					}
+					return
+				}
+				kind := storeCallKind(&x.Call)
+				if kind == "" || len(x.Call.Args) == 0 {
+					return
+				}
+				keyArg := x.Call.Args[0] // interface call: the receiver is not among the arguments
+				if kind == "List" {
+					if pf, ok := constStr(keyArg); ok {
+						prefixes[pf] = true
+					}
+					return
+				}
+				if xi.C == rg.top && helper && paramRooted(fn, keyArg) {
+					return // the key is handed in: judged where it is built
+				}
+				var k skey
+				k.format, k.arg = "?", fc.AP(keyArg)
+				for _, o := range rg.Origins(RV{V: keyArg, C: xi.C}) {
+					k.format, k.arg = storeKeyOf(rg.Ctx(a, o.C), o.V, 0)
+				}
+				coll := strings.TrimSuffix(k.format, "%s")
+				if perFn[coll] == nil {
+					perFn[coll] = map[skey]string{}
+				}
+				perFn[coll][k] = p.InstrPos(in)
+				if perFnInstr[coll] == nil {
+					perFnInstr[coll] = map[skey][]RI{}
+				}
+				perFnInstr[coll][k] = append(perFnInstr[coll][k], xi)
+				okF := strings.HasSuffix(k.format, "/%s") && strings.Count(k.format, "%") == 1
+				r.Check(okF, rule, fmt.Sprintf("%s: %s key %q", p.FnName(in.Parent()), kind, k.format), p.InstrPos(in), "collection prefix + one %s", "the store key is not a collection prefix followed by exactly one %s")
+			}
+		})
 		for coll, ks := range perFn {
 			var descr []string
 			for k, pos := range ks {
@@ -957,7 +1090,8 @@ func checkKeyAgreement(r *Report, p *Prog) {
 					}
 					for _, i1 := range is1 {
 						for _, i2 := range is2 {
-							if i1.Block() == i2.Block() || blockReaches(i1.Block(), i2.Block()) {
+							p1, p2 := rg.SiteIn(rg.top, i1), rg.SiteIn(rg.top, i2)
+							if p1 == nil || p2 == nil || p1.Block() == p2.Block() || blockReaches(p1.Block(), p2.Block()) {
 								conflict = true
 							}
 						}
@@ -966,7 +1100,6 @@ func checkKeyAgreement(r *Report, p *Prog) {
 			}
 			r.Check(len(ks) == 1 || !conflict, rule, fmt.Sprintf("%s: one key expression for %s", p.FnName(fn), coll), p.Pos(fn.Pos()), descr[0], "the handler addresses the same collection under different keys: "+strings.Join(descr, "; ")+" (what is read, written and deleted are not the same record)")
 		}
-		_ = a
 	}
 	// an overwrite forgets the replaced record's registry key: a handler that stores a record with Store.Put and registers
 	// it in the registry also removes the entry of the record it replaced (loaded with Store.Get under the same key)
@@ -1000,15 +1133,11 @@ func checkKeyAgreement(r *Report, p *Prog) {
 			continue
 		}
 		keyOf := func(c *ssa.Call) string {
-			if k, ok := c.Call.Args[0].(*ssa.Call); ok && calleeIs(k, "fmt.Sprintf") {
-				f, _ := constStr(k.Call.Args[0])
-				arg := "?"
-				if vs := varargValues(k); len(vs) == 1 {
-					arg = fc.AP(vs[0])
-				}
-				return f + "(" + arg + ")"
+			f, arg := storeKeyOf(fc, c.Call.Args[0], 0)
+			if f == "?" {
+				return arg
 			}
-			return fc.AP(c.Call.Args[0])
+			return f + "(" + arg + ")"
 		}
 		for _, put := range puts {
 			okF := false
@@ -1055,6 +1184,34 @@ func checkKeyAgreement(r *Report, p *Prog) {
 		detail = append(detail, k+": "+strings.Join(keys[k], ", "))
 	}
 	r.Check(len(ks) == 1 && nUpd >= 1 && nDel >= 1, rule, "service registry: entries are inserted and removed under the same key expression", "-", strings.Join(detail, " | "), "the registry is updated and deleted under different key expressions ("+strings.Join(detail, " | ")+"): an entry inserted under one spelling is never removed, so a deleted service keeps receiving assertions until restart")
+}
+
+// storeKeyOf: a store key in the form (format, argument): fmt.Sprintf("<prefix>%s", x), "<prefix>" + x, or either of
+// these computed by a side-effect-free helper of its argument; ("?", access path) otherwise.
+func storeKeyOf(fc *FuncCtx, v ssa.Value, depth int) (string, string) {
+	switch x := v.(type) {
+	case *ssa.Call:
+		if calleeIs(x, "fmt.Sprintf") {
+			f, _ := constStr(x.Call.Args[0])
+			if vs := varargValues(x); len(vs) == 1 {
+				return f, fc.AP(vs[0])
+			}
+			return f, "?"
+		}
+		if sc := x.Call.StaticCallee(); sc != nil && depth < 2 && fc.A.isPureModuleFunc(sc) {
+			if ret := singleReturn(sc); ret != nil && len(ret.Results) == 1 {
+				sub := fc.inlineCtx(sc, x.Call.Args, x)
+				return storeKeyOf(sub, ret.Results[0], depth+1)
+			}
+		}
+	case *ssa.BinOp:
+		if x.Op == token.ADD {
+			if pf, ok := constStr(x.X); ok {
+				return pf + "%s", fc.AP(x.Y)
+			}
+		}
+	}
+	return "?", fc.AP(v)
 }
 
 func checkStoreErrors(r *Report, p *Prog) {
